@@ -236,14 +236,15 @@ def rule_klatt_layout(rep, tier, rule="K-layout"):
     plain = [("phonation", []), ("pitch", [(0.25, 120.5), (1.5, 3.28e-20), (1.625, 0.0)]), ("flutter", []),
              ("voicingAmplitude", [(0.5, 60.0), (0.75, 1.29e+20), (1.0, 12345.678)])]
     subs = {"formants": [("formants [1]", [(0.25, 550.25), (0.5, 1234.0)]), ("formants [2]", [(0.25, 1500.0), (0.375, 98.765)])],
-            "bandwidths": [("bandwidths [1]", [(0.75, 65.5), (1.0, 7.5e-10)])]}
+            # eleven sub-tiers: numbering runs past 9, where the order of the names is not their lexicographic order
+            "bandwidths": [("bandwidths [%d]" % i, [(0.75, 60.5 + i), (1.0, 7.5e-10 if i == 1 else 70.0 + i)]) for i in range(1, 12)]}
     sv = idx.get("Klattgrid.save")
     rd = idx.get("klattgrid:openKlattgrid")
     for q in ("Klattgrid.save", "klattgrid:openKlattgrid", "klattgrid:_openNormalKlattgrid", "klattgrid:_proccessContainerTierInput", "klattgrid:_getSectionHeader",
               "klattgrid:_processSectionData", "klattgrid:_buildEntries", "data_classes.klattgrid:_cleanNumericValues", "data_classes.klattgrid:toIntOrFloat"):
         if idx.try_get(q):
             rep.functions.add(idx.get(q).qual)
-    what = "exemplar KlattGrid (4 plain tiers incl. a null tier, oral_formants{formants[1,2], bandwidths[1]})"
+    what = "exemplar KlattGrid (4 plain tiers incl. a null tier, oral_formants{formants[1,2], bandwidths[1..11]})"
     I = Interp(idx, st, overrides=default_overrides())
     I.MAX_STEPS = 3000000
     try:
